@@ -24,8 +24,9 @@ HARNESS = ["mcp/x05_transport_test.go"]
 CLASSES = ["rdv", "buf", "stdio", "sse", "stream", "streamns"]
 KINDS = {"rdv": ["mem", "iopipe", "logmem"], "buf": ["ospipe"], "stdio": ["stdio"], "sse": ["sse"], "stream": ["stream"],
          "streamns": ["streamns"]}
-ACTIONS = ["WriteBegin", "WriteSend", "WriteEnd", "Pump", "PumpEof", "ReadBegin", "ReadMsg", "ReadErr", "CloseBegin",
-           "CloseDo", "CloseEnd", "ProcessExit"]
+ACTIONS = ["WriteBegin", "WriteSend", "WriteEnd", "Pump", "PumpEof", "ReadBegin", "ReadTakeMsg", "ReadTakeErr", "ReadEnd",
+           "CloseBegin", "CloseDo", "CloseEnd", "ProcessExit"]
+_cov = re.compile(r"(?m)^<(\w+) line [^>]*>: (\d+):(\d+)")
 LEADS = [("lead_sse_T2", "ClosedStopsReads"), ("lead_stream_T2", "ClosedStopsReads"), ("lead_streamns_T2", "ClosedStopsReads"),
          ("lead_stdio_T3", "ClosedStopsWrites"), ("lead_streamns_T3", "ClosedStopsWrites")]
 WITNESSES = [("mc_rdv_q2", "NeverBlockedWrite"), ("mc_rdv_q2", "NeverDelivered2"), ("mc_rdv_q2", "NeverEofAfterMsg"),
@@ -66,8 +67,9 @@ def model_check(v, tier):
     jobs = [("mc_%s_q" % c, 2) for c in CLASSES] + [("mc_rdv_q2", 1), ("live_rdv_q", 1)]
     jobs += [("ideal_%s" % c, 1) for c in ("stdio", "sse", "stream", "streamns")]
     if not quick:
-        jobs += [("mc_%s_t1" % c, 3) for c in CLASSES] + [("mc_rdv_t2", 3), ("mc_rdv_t3", 3), ("mc_sse_t2", 3)]
-        jobs += [("live_%s" % c, 2) for c in CLASSES]
+        jobs += [("mc_%s_t1" % c, 2) for c in CLASSES] + [("mc_%s_t2" % c, 2) for c in CLASSES if c != "rdv"]
+        jobs += [("mc_rdv_t3", 3), ("mc_sse_t3", 3), ("mc_stream_t3", 4), ("mc_rdv_t4", 4)]
+        jobs += [("live_%s" % c, 1) for c in CLASSES]
 
     def mc(job):
         name, workers = job
@@ -99,9 +101,9 @@ def model_check(v, tier):
         if not res.ok:
             raise vlib.MachineryError("model violates %s in %s: the specification no longer satisfies its own properties\n%s"
                                       % (res.violation, name, res.stdout[-3000:]))
-        for act, (dist, tot) in res.coverage.items():
+        for act, dist, tot in _cov.findall(res.stdout):      # (vlib's pattern misses lines with a location suffix)
             if act in ACTIONS:
-                live[act] = live.get(act, 0) + tot
+                live[act] = live.get(act, 0) + int(tot)
     if not quick:
         dead = sorted(a for a in ACTIONS if live.get(a, 0) == 0)
         v.cov["dead_actions"] = dead
@@ -211,12 +213,14 @@ def corner_schedules(cls):
 
 def generate(v, tier, seed):
     quick = tier == "quick"
-    nsim = 60 if quick else 700
+    nsim = 60 if quick else 1200
     out = {}
 
     def gen(cls):
         sch = corner_schedules(cls)
-        sch += cover_schedules(v, cls, "TransportContract_cover_%s_%s.cfg" % (cls, "q" if quick else "t"), seed)
+        sch += cover_schedules(v, cls, "TransportContract_cover_%s_q.cfg" % cls, seed)
+        if not quick:
+            sch += cover_schedules(v, cls, "TransportContract_cover_%s_t.cfg" % cls, seed + 1)
         sch += sim_schedules(v, cls, "TransportContract_sim_%s.cfg" % cls, nsim, 50, seed + CLASSES.index(cls))
         return cls, sch
     with ThreadPoolExecutor(max_workers=6) as ex:
@@ -248,7 +252,7 @@ def generate(v, tier, seed):
         v.cov.setdefault("schedules", {})[cls] = {"settled": len(uniq), "racing": len(racy)}
         ncorner = len(corner_schedules(cls))
         allsch = uniq + racy
-        cap = 260 if quick else 2500
+        cap = 260 if quick else 1000
         if len(allsch) > cap:       # the corner schedules always run; the rest is a seeded sample
             allsch = allsch[:ncorner] + rnd.sample(allsch[ncorner:], cap - ncorner)
             v.cov["schedules"][cls]["sampled"] = cap
